@@ -107,4 +107,16 @@ def obligations(tier):
             for si, (spec, rows, nrg, page, fl, bs, pj) in enumerate(W34):
                 if q and (si == 1 or (si + om + ci) % 4): continue
                 o.append(workers(spec, rows, nrg, page, fl, cn, om, bs, pj, threads=2 + (si + om + ci) % 3, timeout=1800))
+    # reference-writer files through the batch reader (page headers longer than the reader's first 256-byte header window, page statistics,
+    # dictionary pages): the shared-stream model on code paths that files of carquet's own writer never reach
+    # (added after seeded C07-header-window-continuation-unlocked)
+    from props import C06
+    refs = [dict(t=1, s=1, nlv=(3, 3), sym=0, stats=2, extra=1, openm=1), dict(t=6, s=0, nlv=(3,), sym=0, enc=8, nd=2, ibw=1, stats=2, extra=1, openm=1)]
+    if not q:
+        refs += [dict(t=2, s=1, nlv=(2, 2), sym=0, enc=(8, 0), nd=2, ibw=1, stats=2, extra=1, openm=1), dict(t=5, s=0, nlv=(4,), sym=0, stats=2, extra=1, openm=1, codec=1),
+                 dict(t=1, s=1, nlv=(3, 3), sym=0, stats=2, extra=1, openm=2), dict(t=1, s=1, nlv=(3, 3), sym=0, stats=1, extra=1, openm=1, crc=2)]
+    for sh in refs:
+        ob = C06.shape(batchrd=1, timeout=600, **sh)
+        ob.name = 'ref-writer/' + ob.name
+        o.append(ob)
     return o + lazy_init(q)
